@@ -157,12 +157,10 @@ def _selftest(ctx):
 
 
 # ----------------------------------------------------------------------------- stages
-def _stage_a(ctx):
-    r = vlib.tlc_ok("MC_Bip143", "MC_Bip143_8.cfg", workers=16, timeout=1800)
+def _stage_a(ctx, r, rdev):
     ctx.stage_a("MC_Bip143_8.cfg", r, constants="6 flags x idx 0..8 (idx < n_in) x n_in 1..8 x n_out 1..8 = 1728 table rows")
-    r = vlib.tlc("MC_Bip143", "MC_Bip143_8_nobound.cfg", workers=4, timeout=900)
-    if r.completed or r.invariant != "RulesAgree":
-        raise vlib.MachineryFailure("MC_Bip143 self-test: SINGLE without the index bound was not caught:\n" + r.error_text())
+    if rdev.completed or rdev.invariant != "RulesAgree":
+        raise vlib.MachineryFailure("MC_Bip143 self-test: SINGLE without the index bound was not caught:\n" + rdev.error_text())
 
 
 def _judge(ctx, e, got, expected, stage):
@@ -172,7 +170,7 @@ def _judge(ctx, e, got, expected, stage):
     return case
 
 
-def _stage_b(ctx):
+def _gen_b(ctx):
     os.makedirs(vlib.WORK, exist_ok=True)
     out = os.path.join(vlib.WORK, "b143rows.json")
     cfg = os.path.join(vlib.WORK, "Gen_Bip143.cfg")
@@ -183,6 +181,10 @@ def _stage_b(ctx):
         raise vlib.MachineryFailure("Gen_Bip143 failed:\n" + r.error_text())
     rows = json.load(open(out))
     os.remove(out)
+    return rows
+
+
+def _stage_b(ctx, rows):
     if len(rows) != 6 * 8 * 36:
         raise vlib.MachineryFailure(f"Gen_Bip143: {len(rows)} rows, expected 1728")
     for row in rows:
@@ -288,9 +290,17 @@ def run(ctx):
                        "prefix + script), as in the repository's own BIP143 example tests",
                        "TLC evaluates Bip143.tla correctly"]
     vlib.native_selftest()
-    _stage_a(ctx)
-    nvec = _selftest(ctx)
-    _stage_b(ctx)
+    from concurrent.futures import ThreadPoolExecutor
+
+    with ThreadPoolExecutor(max_workers=4) as ex:          # independent TLC jobs run concurrently
+        fa = ex.submit(vlib.tlc_ok, "MC_Bip143", "MC_Bip143_8.cfg", workers=8, timeout=1800)
+        fd = ex.submit(vlib.tlc, "MC_Bip143", "MC_Bip143_8_nobound.cfg", workers=2, timeout=900)
+        fv = ex.submit(_selftest, ctx)
+        fb = ex.submit(_gen_b, ctx)
+        _stage_a(ctx, fa.result(), fd.result())
+        nvec = fv.result()
+        rows = fb.result()
+    _stage_b(ctx, rows)
     _run_c(ctx, _gen_c(ctx))
     ctx.cov["stage_c"][-1]["bip143_examples_selftest"] = nvec
 
